@@ -257,7 +257,7 @@ FIXED_SOURCES = [
     "{1 + ($ < 3 ?> ^~ $ + 1)} <~ 0", "{ $ + 1 } <~ 5", "5 ~> { $ * 2 }", "{ $ } ~~", "5 [6] 7", "[1] 2", "`f 5", "5 f`", "5 `g` 6",
     "\"s\" 'b' :s a.b", "1\n\n2", "1 ; 2", "^~ 5", "$ < 3 ?> ^~ $ + 1", "(1 ?> 2) + (3 ?> 4 |> 5)", "{ { $ + 1 } <~ $ } <~ 1",
     "({ $ } ~ 1) <~ 2", "1..3", "(1 2 3).1", "(:a = 1).a", "#5", "5 ~# #\"\"", "1 == 1 && 2 == 2 || 3", "{ 1 ?> 2 |> 3 } ~~",
-    "5 ;;", ";;", "1 ?> 2 ;;",
+    "5 ;;", ";;", "1 ?> 2 ;;", "5 ?> 7 |> ;;", "$ ?> 7 |> ;;",
     "1 + (5 ?> { })", "{ $ < 3 ?> ({ } <~ ($ + 1)) |> $ } <~ 0", "{ $ >= 3 ?> $ |> ({ } <~ ($ + 1)) } <~ 0", "a && { }", "5 ?> { }",
     "1 + (a || { })", "[ ]", "[ 5 ]", "1 [ ]", "5 ~~ [6]", "(1 2) [3] 4",
     "(:a = (:b = 5,),) <~ :a.b", "(:a = (:b = 5,),) <~ :a.c", "(:a = (:b = 5,),) <~ :x.b", "1, ((:a = (:b = 5,),) <~ :a.c), 3",
@@ -568,6 +568,7 @@ def tree_classes(nodes, root):
        chain_early_else an else-chain with a non-conditional element before its end
        reapply_pending  `^~` somewhere other than the tail of its expression body
        terminator       a bare `;;`
+       chain_terminator an else-chain whose final else is a bare `;;` (C06-K5; always together with terminator)
        empty_program    no node at all"""
     tags = set()
     if not nodes:
@@ -590,6 +591,8 @@ def tree_classes(nodes, root):
                 tags.add("chain_no_else")
             if any(nodes[e]["def"] not in COND for e in els[:-1]):
                 tags.add("chain_early_else")
+            if els and nodes[els[-1]]["def"] == "ExpressionTerminator":
+                tags.add("chain_terminator")      # inside the excluded class: C06-K5
         if d == "Reapply":
             if not reapply_in_tail(nodes, i):
                 tags.add("reapply_pending")
